@@ -247,6 +247,15 @@ pub fn gen_legal(rng: &mut Rng, kind: Kind, uniq: &mut Uniq, opts: &GenOpts) -> 
     let mut notes: Vec<Note> = Vec::new();
     let links = if opts.terminates && rng.chance(3, 4) { 1 } else { rng.range(1, opts.max_links) };
     for link in 0..links {
+        // One link attempt in eight is refused: the remote answers with `unlinked` straight away (lane or
+        // node not found), which is then the first - or, after an earlier link, the next - notification.
+        if rng.chance(1, 8) {
+            notes.push(Note::Unlinked);
+            if link + 1 == links {
+                break;
+            }
+            continue;
+        }
         notes.push(Note::Linked);
         let mut approx_size = 0u64;
         let will_sync = rng.chance(5, 6);
